@@ -413,6 +413,113 @@ func g1MarshalStoredFirst(era, typ string) bool {
 	return ok0 && ok1 && r0.Name == v.Name && r1.Name == "nil"
 }
 
+// g1VcCases lists, for an era's UtxoValidateValueNotConservedUtxo, which certificate types
+// add to which side of the balance and where the amount comes from:
+// (side "consumed"|"produced", certificate type, source "KeyDeposit"|"PoolDeposit"|"Amount").
+func g1VcCases(era string) [][3]string {
+	p := loadPkg("ledger/" + era)
+	fd := findFunc(p, "", "UtxoValidateValueNotConservedUtxo")
+	if fd == nil || fd.Body == nil {
+		fatal("g1 vc cases: ledger/%s: function not found", era)
+	}
+	res := [][3]string{}
+	ast.Inspect(fd.Body, func(n ast.Node) bool {
+		ts, ok := n.(*ast.TypeSwitchStmt)
+		if !ok {
+			return true
+		}
+		for _, cl := range ts.Body.List {
+			cc := cl.(*ast.CaseClause)
+			types := []string{}
+			for _, t := range cc.List {
+				if st, ok := t.(*ast.StarExpr); ok {
+					if sel, ok := st.X.(*ast.SelectorExpr); ok {
+						types = append(types, sel.Sel.Name)
+					}
+				}
+			}
+			for _, st := range cc.Body {
+				ast.Inspect(st, func(m ast.Node) bool {
+					call, ok := m.(*ast.CallExpr)
+					if !ok {
+						return true
+					}
+					sel, ok := call.Fun.(*ast.SelectorExpr)
+					if !ok || sel.Sel.Name != "Add" || len(call.Args) != 2 {
+						return true
+					}
+					recv, ok := sel.X.(*ast.Ident)
+					if !ok || (recv.Name != "consumedValue" && recv.Name != "producedValue") {
+						return true
+					}
+					src := "other"
+					ast.Inspect(call.Args[1], func(k ast.Node) bool {
+						if s2, ok := k.(*ast.SelectorExpr); ok {
+							switch s2.Sel.Name {
+							case "KeyDeposit", "PoolDeposit", "Amount":
+								src = s2.Sel.Name
+							}
+						}
+						return true
+					})
+					side := strings.TrimSuffix(recv.Name, "Value")
+					for _, ty := range types {
+						res = append(res, [3]string{side, ty, src})
+					}
+					return false
+				})
+			}
+		}
+		return true
+	})
+	return res
+}
+
+// g1DepositRuleCases: (certificate type, what its amount is compared with) for
+// conway.UtxoValidateCertificateDeposits; empty when the rule does not exist.
+func g1DepositRuleCases() [][2]string {
+	p := loadPkg("ledger/conway")
+	fd := findFunc(p, "", "UtxoValidateCertificateDeposits")
+	res := [][2]string{}
+	if fd == nil || fd.Body == nil {
+		return res
+	}
+	ast.Inspect(fd.Body, func(n ast.Node) bool {
+		ts, ok := n.(*ast.TypeSwitchStmt)
+		if !ok {
+			return true
+		}
+		for _, cl := range ts.Body.List {
+			cc := cl.(*ast.CaseClause)
+			src := "none"
+			for _, st := range cc.Body {
+				ast.Inspect(st, func(m ast.Node) bool {
+					if s2, ok := m.(*ast.SelectorExpr); ok {
+						switch s2.Sel.Name {
+						case "KeyDepositAmount":
+							src = "KeyDeposit"
+						case "DRepDepositAmount":
+							src = "DRepDeposit"
+						case "Deposit":
+							src = "Recorded"
+						}
+					}
+					return true
+				})
+			}
+			for _, t := range cc.List {
+				if st, ok := t.(*ast.StarExpr); ok {
+					if sel, ok := st.X.(*ast.SelectorExpr); ok {
+						res = append(res, [2]string{sel.Sel.Name, src})
+					}
+				}
+			}
+		}
+		return true
+	})
+	return res
+}
+
 // g1PkgDirs maps a package qualifier used in rule files to its directory.
 var g1PkgDirs = map[string]string{"common": "ledger/common", "shelley": "ledger/shelley", "conway": "ledger/conway"}
 
@@ -544,6 +651,22 @@ func init() {
 			}
 			l.pf("/-- does the era's transaction `MarshalCBOR` return the stored original bytes first? -/\n")
 			l.pf("def marshalReturnsStoredFirst : List (String × Bool) := [%s]\n\n", strings.Join(parts, ", "))
+		}
+		for _, e := range []string{"shelley", "mary", "alonzo", "babbage", "conway"} {
+			parts := []string{}
+			for _, c := range g1VcCases(e) {
+				parts = append(parts, fmt.Sprintf("(\"%s\", \"%s\", \"%s\")", c[0], c[1], c[2]))
+			}
+			l.pf("/-- ledger/%s UtxoValidateValueNotConservedUtxo: (side, certificate type, where the amount comes from) -/\n", e)
+			l.pf("def vcCases_%s : List (String × String × String) := [%s]\n\n", e, strings.Join(parts, ", "))
+		}
+		{
+			parts := []string{}
+			for _, c := range g1DepositRuleCases() {
+				parts = append(parts, fmt.Sprintf("(\"%s\", \"%s\")", c[0], c[1]))
+			}
+			l.pf("/-- conway.UtxoValidateCertificateDeposits: (certificate type, what its amount is compared with) -/\n")
+			l.pf("def depositRuleCases : List (String × String) := [%s]\n\n", strings.Join(parts, ", "))
 		}
 		g1CondFact(l, "ledger/conway", "UtxoValidateWithdrawals", "protocolMajor", "withdrawalsGateSkipped")
 		g1Delegations(l, "withdrawalsDelegation", "UtxoValidateWithdrawals", []string{"conway"})
